@@ -176,6 +176,8 @@ struct CliCase {
     shape: Vec<usize>,
     flag: &'static str,
     list: Vec<usize>,
+    /// further options given in the same invocation: a verbosity flag, `--mask-monomorphic`
+    extra: Vec<&'static str>,
 }
 
 fn cli_case_j(c: &CliCase, input: &str) -> J {
@@ -184,6 +186,7 @@ fn cli_case_j(c: &CliCase, input: &str) -> J {
         ("shape", J::usizes(&c.shape)),
         ("flag", J::s(c.flag)),
         ("list", J::usizes(&c.list)),
+        ("extra", J::strs(&c.extra)),
         ("stdin", J::s(input)),
     ])
 }
@@ -193,8 +196,17 @@ fn eval_cli(c: &CliCase, scratch: &Scratch) -> (Vec<Viol>, bool) {
     let x = bit_labels(&c.shape);
     let input = text_of(&x);
     let arg = join_usizes(&c.list, ",");
-    let o = run_sfs(&["view", c.flag, &arg], Stdin::Bytes(input.as_bytes()), scratch);
+    let mut argv: Vec<&str> = vec!["view"];
+    // verbosity flags go in front of the list, the mask flag behind it
+    argv.extend(c.extra.iter().filter(|e| e.starts_with("-v") || e.starts_with("-q")));
+    argv.extend([c.flag, &arg]);
+    argv.extend(c.extra.iter().filter(|e| !(e.starts_with("-v") || e.starts_with("-q"))));
+    let o = run_sfs(&argv, Stdin::Bytes(input.as_bytes()), scratch);
     let mut viols = Vec::new();
+    let tag = if c.extra.is_empty() { String::new() } else { format!("|with {}", c.extra.join(" ")) };
+    // a keep list that names an axis twice: the statement calls duplicate axes an error and defines
+    // -M through the complement of the set; either is accepted, anything else is not
+    let keep_dup = c.flag == "-M" && (0..c.list.len()).any(|i| c.list[i + 1..].contains(&c.list[i]));
     let remove: Vec<usize> = if c.flag == "-m" {
         c.list.clone()
     } else {
@@ -223,14 +235,22 @@ fn eval_cli(c: &CliCase, scratch: &Scratch) -> (Vec<Viol>, bool) {
         }
         return (viols, false);
     }
-    let expect = x.marginalize(&remove);
+    if keep_dup && !o.ok() && o.stdout.is_empty() && o.diagnosed_error() {
+        return (viols, false);
+    }
+    let mut expect = if remove.is_empty() { x.clone() } else { x.marginalize(&remove) };
+    if c.extra.contains(&"--mask-monomorphic") {
+        let n = expect.data.len();
+        expect.data[0] = 0.0;
+        expect.data[n - 1] = 0.0;
+    }
     match parse_out(&o) {
         Ok(got) if got == expect => {}
         other => viols.push((
-            format!("C04|cli|{}-wrong|{}", c.flag, class(&remove)),
+            format!("C04|cli|{}-wrong|{}{tag}", c.flag, class(&remove)),
             format!(
-                "view {} {arg} on shape {:?} gave {other:?}, expected {:?} {:?}",
-                c.flag, c.shape, expect.shape, expect.data
+                "{argv:?} on shape {:?} gave {other:?}, expected {:?} {:?}",
+                c.shape, expect.shape, expect.data
             ),
             cli_case_j(c, &input),
         )),
@@ -465,22 +485,22 @@ pub fn run(tier: Tier) -> i32 {
     for s in [vec![2usize, 1, 2, 1, 2, 1, 2, 1, 3], vec![1, 2, 1, 2, 1, 1, 1, 2, 1, 2, 2]] {
         let d = s.len();
         for k in [vec![0, d - 1], vec![d - 1, 0], vec![d - 1], vec![d - 2, d - 1], vec![0], (0..d).step_by(2).collect::<Vec<_>>()] {
-            cases.push(CliCase { shape: s.clone(), flag: "-M", list: k });
+            cases.push(CliCase { shape: s.clone(), flag: "-M", list: k, extra: vec![] });
         }
-        cases.push(CliCase { shape: s.clone(), flag: "-m", list: (1..d - 1).collect() });
-        cases.push(CliCase { shape: s.clone(), flag: "-m", list: vec![d - 1, 0, d / 2] });
+        cases.push(CliCase { shape: s.clone(), flag: "-m", list: (1..d - 1).collect(), extra: vec![] });
+        cases.push(CliCase { shape: s.clone(), flag: "-m", list: vec![d - 1, 0, d / 2], extra: vec![] });
     }
     for s in &cli_shapes {
         let d = s.len();
         // -m: all ordered lists of distinct axes (valid), plus invalid ones
         for l in ordered_lists(d, 1, d) {
-            cases.push(CliCase { shape: s.clone(), flag: "-m", list: l });
+            cases.push(CliCase { shape: s.clone(), flag: "-m", list: l, extra: vec![] });
         }
-        cases.push(CliCase { shape: s.clone(), flag: "-m", list: vec![0, 0] });
-        cases.push(CliCase { shape: s.clone(), flag: "-m", list: vec![d] });
+        cases.push(CliCase { shape: s.clone(), flag: "-m", list: vec![0, 0], extra: vec![] });
+        cases.push(CliCase { shape: s.clone(), flag: "-m", list: vec![d], extra: vec![] });
         if d >= 2 {
-            cases.push(CliCase { shape: s.clone(), flag: "-m", list: vec![1, 0, 1] });
-            cases.push(CliCase { shape: s.clone(), flag: "-m", list: vec![0, d + 3] });
+            cases.push(CliCase { shape: s.clone(), flag: "-m", list: vec![1, 0, 1], extra: vec![] });
+            cases.push(CliCase { shape: s.clone(), flag: "-m", list: vec![0, d + 3], extra: vec![] });
         }
         // -M: every non-empty subset K (keep) in sorted and reversed order
         for k in subsets(d) {
@@ -490,9 +510,28 @@ pub fn run(tier: Tier) -> i32 {
             let mut r = k.clone();
             r.reverse();
             if r != k {
-                cases.push(CliCase { shape: s.clone(), flag: "-M", list: r });
+                cases.push(CliCase { shape: s.clone(), flag: "-M", list: r, extra: vec![] });
             }
-            cases.push(CliCase { shape: s.clone(), flag: "-M", list: k });
+            cases.push(CliCase { shape: s.clone(), flag: "-M", list: k, extra: vec![] });
+        }
+    }
+    // the same lists together with a second option: what is logged and what is masked afterwards
+    // must not change what is summed; keep lists naming an axis twice
+    let base: Vec<CliCase> = cases.iter().filter(|c| c.shape.len() <= 5).cloned().collect();
+    for c in &base {
+        for extra in [vec!["-v"], vec!["-vv"], vec!["-q"], vec!["--mask-monomorphic"], vec!["-v", "--mask-monomorphic"]] {
+            let mut c2 = c.clone();
+            c2.extra = extra;
+            cases.push(c2);
+        }
+        if c.flag == "-M" && !c.list.is_empty() {
+            for at in [0, c.list.len() - 1] {
+                let mut l = c.list.clone();
+                l.push(c.list[at]);
+                cases.push(CliCase { shape: c.shape.clone(), flag: "-M", list: l.clone(), extra: vec![] });
+                l.rotate_right(1);
+                cases.push(CliCase { shape: c.shape.clone(), flag: "-M", list: l, extra: vec!["-v"] });
+            }
         }
     }
     let res = par_map(cases.len(), |i| eval_cli(&cases[i], &scratch));
@@ -509,7 +548,7 @@ pub fn run(tier: Tier) -> i32 {
         name: "cli: view -m / -M".into(),
         evaluations: cases.len() as u64,
         nontrivial: nt,
-        note: format!("{} shapes; -m every ordered list incl. invalid ones; -M every subset (checked against the complement)", cli_shapes.len()),
+        note: format!("{} shapes; -m every ordered list incl. invalid ones; -M every subset (checked against the complement); each list also with -v / -vv / -q / --mask-monomorphic / both in the same invocation; keep lists naming an axis twice (an error or the complement of the set)", cli_shapes.len()),
         exhaustive: true,
         extra: vec![],
     });
@@ -564,6 +603,9 @@ pub fn replay(case: &J) -> Option<Vec<String>> {
                 shape: case.get("shape")?.as_usizes()?,
                 flag,
                 list: case.get("list")?.as_usizes()?,
+                extra: case.get("extra").and_then(|e| e.as_arr()).map_or(vec![], |a| {
+                    a.iter().filter_map(|x| x.as_str()).filter_map(|x| ["-v", "-vv", "-q", "--mask-monomorphic"].iter().copied().find(|k| *k == x)).collect()
+                }),
             };
             let (v, _) = eval_cli(&c, &scratch);
             Some(v.into_iter().map(|(k, w, _)| format!("{k} :: {w}")).collect())
